@@ -703,13 +703,19 @@ def purity(ctx):
     from ..dataflow import is_shared
 
     chk, repo = ctx.chk, ctx.repo
-    mi = repo.modules.get("job_shop_lib.dispatching.rules._dispatching_rules_functions")
-    if mi is None:
-        raise AnalysisError("rules module vanished")
-    targets = [f for f in mi.functions.values()]
-    for c in mi.classes.values():
-        targets += [m for m in c.methods.values() if m.name == "__call__"]
-    targets += [f for f in repo.functions.values() if f.module is mi and f.parent is not None and not isinstance(f.node, ast.Lambda)]
+    from .common import modules_defining
+
+    # the modules that define the exported rules, scoring functions and scorer objects
+    names = modules_defining(
+        ctx, "job_shop_lib.dispatching.rules",
+        lambda n: n.endswith(("_rule", "_score", "Scorer")),
+    )
+    targets = []
+    for mi in (repo.modules[n] for n in names):
+        targets += [f for f in mi.functions.values()]
+        for c in mi.classes.values():
+            targets += [m for m in c.methods.values() if m.name == "__call__"]
+        targets += [f for f in repo.functions.values() if f.module is mi and f.parent is not None and not isinstance(f.node, ast.Lambda)]
     n = 0
     for fi in sorted(set(targets), key=lambda f: f.qualname):
         n += 1
